@@ -263,6 +263,20 @@ def m_is_digit(ex, a):
     k = c.concrete()
     if k is not None: return Bool(any(lo <= k <= hi for lo, hi, _ in _digit_ranges(radix)))
     return Bool(z3.Or(*[z3.And(z3.UGE(c.bv, lo), z3.ULE(c.bv, hi)) for lo, hi, _ in _digit_ranges(radix)]))
+@model_rx(r'^(?:std::char::|core::char::)?(?:convert::)?(from_u32|from_u32_unchecked|from_digit)$|^char::methods::<impl char>::(from_u32|from_u32_unchecked|from_digit)$')
+def m_char_from(ex, a, m):
+    op = m.group(1) or m.group(2); x = a[0]
+    if op == 'from_digit':
+        radix = pyint(ex, a[1]); k = x.concrete()
+        if k is None:
+            if not ex.branch_bool(Bool(z3.ULT(x.bv, radix))): return none()
+            return some(Int(z3.If(z3.ULT(x.bv, 10), x.bv + 48, x.bv + 87), 'char'))
+        return some(Int(ord('0123456789abcdefghijklmnopqrstuvwxyz'[k]), 'char')) if k < radix else none()
+    k = x.concrete()
+    if op == 'from_u32_unchecked': return Int(k, 'char') if k is not None else Int(x.bv, 'char')
+    if k is not None: return some(Int(k, 'char')) if (k <= 0x10FFFF and not 0xD800 <= k <= 0xDFFF) else none()
+    valid = z3.And(z3.ULE(x.bv, 0x10FFFF), z3.Or(z3.ULT(x.bv, 0xD800), z3.UGT(x.bv, 0xDFFF)))
+    return some(Int(x.bv, 'char')) if ex.branch_bool(Bool(valid)) else none()
 @model('char::methods::<impl char>::to_digit')
 def m_to_digit(ex, a):
     c = a[0]; radix = pyint(ex, a[1]); k = c.concrete()
